@@ -4,6 +4,7 @@ import Uquic.Model.Wire.Frames
 import Uquic.Model.Wire.Header
 import Uquic.Model.Wire.TransportParams
 import Uquic.Model.Wire.Token
+import Uquic.Model.Wire.Split
 import Uquic.Spec.WireMon
 
 open Uquic.Oracle Uquic.Model.Wire Uquic.Spec.WireMon
@@ -774,6 +775,77 @@ def step (s : St) (op impl : String) : St × StepOut :=
       | .ok p => s!"ok {fmtTP p}"
       | .error e => s!"E:{terrName e}"
     (s, { model := model, tags := [s!"tpstdec:{if model.startsWith "ok" then "ok" else model}"], fails := noPanic [] })
+  | ["smax", ms, a, b, c] =>
+    let ws := [a, b, c]
+    let n := streamMaxDataLen (kvn ws "sid=") (kvn ws "off=") (kv ws "len=" = "1") (natOf ms)
+    -- monitor: a frame carrying that many bytes fits the budget
+    let implN := natOf impl
+    let f := Frame.stream (kvn ws "sid=") (kvn ws "off=") (List.replicate implN 0) false (kv ws "len=" = "1")
+    let fails : List Fail := noPanic (if implN > 0 ∧ f.bytes.length > natOf ms then
+      [("maxlen_fits", "-", s!"MaxDataLen={implN} but a frame with that much data takes {f.bytes.length} > {ms} bytes")] else [])
+    (s, { model := toString n, tags := [s!"smax:{if n = 0 then "0" else "pos"}"], fails := fails })
+  | ["cmax", ms, a] =>
+    let n := cryptoMaxDataLen (kvn [a] "off=") (natOf ms)
+    let implN := natOf impl
+    let f := Frame.crypto (kvn [a] "off=") (List.replicate implN 0)
+    let fails : List Fail := noPanic (if implN > 0 ∧ f.bytes.length > natOf ms then
+      [("maxlen_fits", "-", s!"MaxDataLen={implN} but a CRYPTO frame with that much data takes {f.bytes.length} > {ms} bytes")] else [])
+    (s, { model := toString n, tags := [s!"cmax:{if n = 0 then "0" else "pos"}"], fails := fails })
+  | ["dmax", ms, a] =>
+    let n := datagramMaxDataLen (kv [a] "len=" = "1") (natOf ms)
+    let implN := natOf impl
+    let f := Frame.datagram (kv [a] "len=" = "1") (List.replicate implN 0)
+    let fails : List Fail := noPanic (if implN > 0 ∧ f.bytes.length > natOf ms then
+      [("maxlen_fits", "-", s!"MaxDataLen={implN} but a DATAGRAM frame with that much data takes {f.bytes.length} > {ms} bytes")] else [])
+    (s, { model := toString n, tags := [s!"dmax:{if n = 0 then "0" else "pos"}"], fails := fails })
+  | "ssplit" :: ms :: fw =>
+    match frameOfWords fw with
+    | some (.stream sid off data fin dlp) =>
+      let out := streamSplit sid off data fin dlp (natOf ms)
+      let model := match out with
+        | .notNeeded => "nosplit" | .tooSmall => "nil" | .panic => "PANIC"
+        | .split a b => s!"{fmtFrame a} | {fmtFrame b}"
+      let fails : List Fail := Id.run do
+        let mut fails : List Fail := []
+        match impl.splitOn " | " with
+        | [a, b] =>
+          match frameOfWords (words a), frameOfWords (words b) with
+          | some (.stream sid1 off1 d1 fin1 dlp1), some (.stream sid2 off2 d2 fin2 dlp2) =>
+            if (Frame.stream sid1 off1 d1 fin1 dlp1).bytes.length > natOf ms then
+              fails := fails ++ [("split_fits", "-", s!"the split-off frame takes {(Frame.stream sid1 off1 d1 fin1 dlp1).bytes.length} > {ms} bytes")]
+            if d1 ++ d2 ≠ data ∨ d1.isEmpty ∨ sid1 ≠ sid ∨ sid2 ≠ sid ∨ off1 ≠ off ∨ off2 ≠ off + d1.length ∨ fin1 ∨ fin2 ≠ fin ∨ dlp1 ≠ dlp ∨ dlp2 ≠ dlp then
+              fails := fails ++ [("split_preserves", "-", s!"`{" ".intercalate fw}` split into `{impl}`")]
+          | _, _ => fails := fails ++ [("split_preserves", "-", s!"unreadable split result `{impl}`")]
+        | _ =>
+          if impl = "nosplit" ∧ (Frame.stream sid off data fin dlp).bytes.length > natOf ms then
+            fails := fails ++ [("split_fits", "-", s!"not split although the frame takes {(Frame.stream sid off data fin dlp).bytes.length} > {ms} bytes")]
+        return fails
+      (s, { model := model, tags := [s!"ssplit:{(model.take 5).toString}"], fails := fails })
+    | _ => (s, { model := "skip", tags := ["skip"] })
+  | "csplit" :: ms :: fw =>
+    match frameOfWords fw with
+    | some (.crypto off data) =>
+      let out := cryptoSplit off data (natOf ms)
+      let model := match out with
+        | .notNeeded => "nosplit" | .tooSmall => "nil" | .panic => "PANIC"
+        | .split a b => s!"{fmtFrame a} | {fmtFrame b}"
+      let fails : List Fail := Id.run do
+        let mut fails : List Fail := noPanic []
+        match impl.splitOn " | " with
+        | [a, b] =>
+          match frameOfWords (words a), frameOfWords (words b) with
+          | some (.crypto off1 d1), some (.crypto off2 d2) =>
+            if (Frame.crypto off1 d1).bytes.length > natOf ms then
+              fails := fails ++ [("split_fits", "-", s!"the split-off frame takes {(Frame.crypto off1 d1).bytes.length} > {ms} bytes")]
+            if d1 ++ d2 ≠ data ∨ d1.isEmpty ∨ off1 ≠ off ∨ off2 ≠ off + d1.length then
+              fails := fails ++ [("split_preserves", "-", s!"`{" ".intercalate fw}` split into `{impl}`")]
+          | _, _ => fails := fails ++ [("split_preserves", "-", s!"unreadable split result `{impl}`")]
+        | _ =>
+          if impl = "nosplit" ∧ (Frame.crypto off data).bytes.length > natOf ms then
+            fails := fails ++ [("split_fits", "-", s!"not split although the frame takes {(Frame.crypto off data).bytes.length} > {ms} bytes")]
+        return fails
+      (s, { model := model, tags := [s!"csplit:{(model.take 5).toString}"], fails := fails })
+    | _ => (s, { model := "skip", tags := ["skip"] })
   | ["tokdec", _, h] =>
     let b := unhx h
     let model := match Token.decodeOutcome b with
